@@ -19,7 +19,7 @@ import match_gen as G
 HARNESSES = (("match_h", ["libdbus-daemon-internal.a"]),)
 MLS = ("match",)
 THEOREMS = ["C07_exactly_once", "C07_matches_spec", "C07_broadcast_delivery", "C07_unicast_delivery",
-            "C07_no_fault_partial", "C07_no_fault_refuted", "C07_rule_equal_partial", "C07_rule_equal_refuted", "C07_remove",
+            "C07_no_fault", "C07_dispatch_total", "C07_rule_equal", "C07_remove",
             "C07_remove_single_reply_refuted", "C07_disconnect_clears", "C07_disconnect_keeps", "C07_reachable_inv",
             "C07_tokenize_exact", "C07_tokenize_partial", "C07_parse_items", "C07_parse_partial", "C07_parse_refuted",
             "C07_parse_refuted_token_cap", "C07_parse_refuted_backslash", "C07_parse_refuted_arg_key", "C07_parse_refuted_unique_name"]
